@@ -25,9 +25,9 @@ Proof. destruct iv as [i|]; cbn [iv_drop]; [apply sleep_drop_acts|apply acts_ref
 Lemma drops_acts now a b dr : acts now dr (sleep_drop b (sleep_drop a dr)).
 Proof. eapply acts_trans; [apply sleep_drop_acts|apply sleep_drop_acts]. Qed.
 
-Lemma poll_aw_acts now a iv dr : acts now dr (snd (fst (poll_aw now a iv dr))).
+Lemma poll_aw0_acts now a iv dr : acts now dr (snd (fst (poll_aw0 now a iv dr))).
 Proof.
-  destruct a as [s|v dl|biased tie a b|]; cbn [poll_aw].
+  destruct a as [s|v dl|biased tie a b| |ch|tr s]; cbn [poll_aw0].
   - pose proof (sleep_poll_acts now s dr) as H. destruct (sleep_poll now s dr) as [[r s'] dr']. exact H.
   - pose proof (timeout_poll_acts _ vpoll now v dl dr (fun v0 dr0 => vpoll_acts now v0 dr0)) as H.
     destruct (timeout_poll vpoll now v dl dr) as [[[res v'] dl'] dr']. cbn [snd] in H.
@@ -42,11 +42,19 @@ Proof.
       * eapply acts_trans; [exact H1|exact H2].
   - destruct iv as [i|]; [|apply acts_refl].
     pose proof (poll_tick_acts now i dr) as H. destruct (poll_tick now i dr) as [[res i'] dr']. exact H.
+  - apply acts_refl.
+  - pose proof (sleep_poll_acts now s dr) as H. destruct (sleep_poll now s dr) as [[r s'] dr']. exact H.
 Qed.
 
-Lemma start_step_acts now s iv dr nid lg : acts now dr (snd (fst (fst (start_step now s iv dr nid lg)))).
+Lemma poll_aw_acts now m a iv dr mail : acts now dr (snd (fst (fst (poll_aw now m a iv dr mail)))).
 Proof.
-  destruct s as [d|t|d v|biased a b|p b| | |polled d1 d2|d|]; cbn [start_step]; try apply acts_refl.
+  destruct a as [s|v dl|biased tie a b| |ch|tr s]; cbn [poll_aw fst]; try apply poll_aw0_acts.
+  destruct (mail_take m ch mail) as [[s mail']|]; cbn [fst snd]; [apply poll_aw0_acts|apply acts_refl].
+Qed.
+
+Lemma start_step0_acts now s iv dr nid lg : acts now dr (snd (fst (fst (start_step0 now s iv dr nid lg)))).
+Proof.
+  destruct s as [d|t|d v|biased a b|p b| | |polled d1 d2|d| |ch d|ch]; cbn [start_step0]; try apply acts_refl.
   - destruct v; apply acts_refl.
   - apply iv_drop_acts.
   - apply iv_drop_acts.
@@ -64,26 +72,34 @@ Proof.
     eapply acts_trans; [exact H|apply sleep_drop_acts].
 Qed.
 
-Definition rs_drv {A B C D E F} (x : A * B * C * driver * D * E * F) : driver := snd (fst (fst (fst x))).
-
-Lemma run_steps_acts now steps : forall cur iv dr nid lg,
-  acts now dr (rs_drv (run_steps now steps cur iv dr nid lg)).
+Lemma start_step_acts now m k s iv dr nid lg mail :
+  acts now dr (snd (fst (fst (fst (start_step now m k s iv dr nid lg mail))))).
 Proof.
-  induction steps as [|s rest IH]; intros cur iv dr nid lg; cbn [run_steps].
+  destruct s as [d|t|d v|biased a b|p b| | |polled d1 d2|d| |ch d|ch]; cbn [start_step fst]; try apply start_step0_acts.
+  pose proof (sleep_poll_acts now (sleep_new (now + d) nid) dr) as H.
+  destruct (sleep_poll now (sleep_new (now + d) nid) dr) as [[r s1] dr1]. cbn [fst snd] in *. exact H.
+Qed.
+
+Definition rs_drv {A B C D E F G} (x : A * B * C * driver * D * E * F * G) : driver := snd (fst (fst (fst (fst x)))).
+
+Lemma run_steps_acts now m k steps : forall cur iv dr nid lg mail,
+  acts now dr (rs_drv (run_steps now m k steps cur iv dr nid lg mail)).
+Proof.
+  induction steps as [|s rest IH]; intros cur iv dr nid lg mail; cbn [run_steps].
   - unfold rs_drv. cbn [fst snd]. apply iv_drop_acts.
-  - assert (H0 : acts now dr (snd (fst (fst
+  - assert (H0 : acts now dr (snd (fst (fst (fst
         match cur with
-        | Some a => (Some a, iv, dr, nid, lg)
-        | None => start_step now s iv dr nid lg
-        end)))).
+        | Some a => (Some a, iv, dr, nid, lg, mail)
+        | None => start_step now m k s iv dr nid lg mail
+        end))))).
     { destruct cur; [apply acts_refl|apply start_step_acts]. }
     destruct (match cur with
-              | Some a => (Some a, iv, dr, nid, lg)
-              | None => start_step now s iv dr nid lg
-              end) as [[[[a iv1] dr1] nid1] lg1]. cbn [fst snd] in H0.
+              | Some a => (Some a, iv, dr, nid, lg, mail)
+              | None => start_step now m k s iv dr nid lg mail
+              end) as [[[[[a iv1] dr1] nid1] lg1] mail1]. cbn [fst snd] in H0.
     destruct a as [a|].
-    + pose proof (poll_aw_acts now a iv1 dr1) as H1.
-      destruct (poll_aw now a iv1 dr1) as [[[[res a'] iv2] dr2] sw]. cbn [fst snd] in H1.
+    + pose proof (poll_aw_acts now m a iv1 dr1 mail1) as H1.
+      destruct (poll_aw now m a iv1 dr1 mail1) as [[[[[res a'] iv2] dr2] sw] mail2]. cbn [fst snd] in H1.
       destruct res as [r|].
       * eapply acts_trans; [exact H0|]. eapply acts_trans; [exact H1|apply IH].
       * unfold rs_drv. cbn [fst snd]. exact (acts_trans _ _ _ _ H0 H1).
@@ -97,15 +113,15 @@ Proof. unfold drv_of, set_drv. destruct (m =? 0); reflexivity. Qed.
 Lemma drv_of_set_other w m m' dr : (m' =? 0) <> (m =? 0) -> drv_of (set_drv w m dr) m' = drv_of w m'.
 Proof. unfold drv_of, set_drv. destruct (m =? 0), (m' =? 0); intros H; try reflexivity; contradiction H; reflexivity. Qed.
 
-Lemma poll_task_drv now m k w :
-  acts now (drv_of w m) (drv_of (fst (poll_task now m k w)) m) /\
-  forall m', (m' =? 0) <> (m =? 0) -> drv_of (fst (poll_task now m k w)) m' = drv_of w m'.
+Lemma poll_task_drv wfix now m k w :
+  acts now (drv_of w m) (drv_of (fst (poll_task wfix now m k w)) m) /\
+  forall m', (m' =? 0) <> (m =? 0) -> drv_of (fst (poll_task wfix now m k w)) m' = drv_of w m'.
 Proof.
   unfold poll_task. destruct (nth_error (w_tasks w) k) as [tk|]; [|split; [apply acts_refl|reflexivity]].
   destruct (t_fin tk); [split; [apply acts_refl|reflexivity]|].
-  pose proof (run_steps_acts now (t_steps tk) (t_cur tk) (t_iv tk) (drv_of w m) (w_nid w) (t_log tk)) as H.
-  destruct (run_steps now (t_steps tk) (t_cur tk) (t_iv tk) (drv_of w m) (w_nid w) (t_log tk))
-    as [[[[[[steps cur] iv] dr] nid] lg] sw]. unfold rs_drv in H. cbn [fst snd] in *.
+  pose proof (run_steps_acts now m k (t_steps tk) (t_cur tk) (t_iv tk) (drv_of w m) (w_nid w) (t_log tk) (w_mail w)) as H.
+  destruct (run_steps now m k (t_steps tk) (t_cur tk) (t_iv tk) (drv_of w m) (w_nid w) (t_log tk) (w_mail w))
+    as [[[[[[[steps cur] iv] dr] nid] lg] sw] mail]. unfold rs_drv in H. cbn [fst snd] in *.
   split.
   - lazymatch goal with |- acts _ _ (drv_of ?W _) => change (drv_of W m) with (drv_of (set_drv w m dr) m) end.
     rewrite drv_of_set_same. exact H.
@@ -114,33 +130,34 @@ Proof.
     exact (drv_of_set_other w m m' dr Hne).
 Qed.
 
-Lemma run_queue_drv fuel now m : forall q w,
-  acts now (drv_of w m) (drv_of (run_queue fuel now m q w) m) /\
-  forall m', (m' =? 0) <> (m =? 0) -> drv_of (run_queue fuel now m q w) m' = drv_of w m'.
+Lemma run_queue_drv wfix fuel now m : forall q w,
+  acts now (drv_of w m) (drv_of (run_queue wfix fuel now m q w) m) /\
+  forall m', (m' =? 0) <> (m =? 0) -> drv_of (run_queue wfix fuel now m q w) m' = drv_of w m'.
 Proof.
   induction fuel as [|f IH]; intros q w; cbn [run_queue]; [split; [apply acts_refl|reflexivity]|].
   destruct q as [|k r]; [split; [apply acts_refl|reflexivity]|].
-  destruct (poll_task_drv now m k w) as [H1 H2].
-  destruct (poll_task now m k w) as [w' sw]. cbn [fst] in *.
-  destruct (IH (if sw then r ++ [k] else r) w') as [H3 H4]. split.
+  destruct (poll_task_drv wfix now m k w) as [H1 H2].
+  destruct (poll_task wfix now m k w) as [w' sw]. cbn [fst] in *.
+  set (r1 := enqueue r (ready_receivers m (w_mail w') 0 (w_tasks w'))).
+  destruct (IH (if sw then enqueue r1 [k] else r1) w') as [H3 H4]. split.
   - exact (acts_trans _ _ _ _ H1 H3).
   - intros m' Hne. rewrite (H4 m' Hne). exact (H2 m' Hne).
 Qed.
 
 (* ---- one event of the composite = one event of the driver theory ---- *)
-Theorem module_event_is_driver_event t m spawn fire w :
+Theorem module_event_is_driver_event wfix t m spawn fire w :
   (exists ops, ops_wf t ops /\
-     drv_of (module_event t m spawn fire w) m =
+     drv_of (module_event wfix t m spawn fire w) m =
      snd (event_body true t ops (if fire then sched_fire t (drv_of w m) else drv_of w m))) /\
-  forall m', (m' =? 0) <> (m =? 0) -> drv_of (module_event t m spawn fire w) m' = drv_of w m'.
+  forall m', (m' =? 0) <> (m =? 0) -> drv_of (module_event wfix t m spawn fire w) m' = drv_of w m'.
 Proof.
   unfold module_event, event_body.
   set (dr0 := if fire then sched_fire t (drv_of w m) else drv_of w m).
   destruct (activate t dr0) as [woken dr1].
   set (q := dedup (flat_map (owner_of (w_owner w)) (flat_map snd woken) ++ spawn)).
   set (w1 := set_drv w m dr1).
-  destruct (run_queue_drv (queue_fuel w1 q) t m q w1) as [H1 H2].
-  set (w2 := run_queue (queue_fuel w1 q) t m q w1) in *.
+  destruct (run_queue_drv wfix (queue_fuel w1 q) t m q w1) as [H1 H2].
+  set (w2 := run_queue wfix (queue_fuel w1 q) t m q w1) in *.
   destruct H1 as (ops & Hwf & Heq). unfold w1 in Heq at 1. rewrite drv_of_set_same in Heq.
   split.
   - exists ops. split; [exact Hwf|]. rewrite <- Heq.
@@ -153,10 +170,10 @@ Proof.
 Qed.
 
 (* hence every event of the composite re-establishes the wake-up invariant of its module *)
-Corollary module_event_inv t m spawn (fire : bool) w :
+Corollary module_event_inv wfix t m spawn (fire : bool) w :
   Pre t (if fire then sched_fire t (drv_of w m) else drv_of w m) ->
-  Inv t (drv_of (module_event t m spawn fire w) m).
+  Inv t (drv_of (module_event wfix t m spawn fire w) m).
 Proof.
-  intros Hpre. destruct (module_event_is_driver_event t m spawn fire w) as [(ops & Hwf & ->) _].
+  intros Hpre. destruct (module_event_is_driver_event wfix t m spawn fire w) as [(ops & Hwf & ->) _].
   apply event_body_inv; assumption.
 Qed.
